@@ -679,6 +679,17 @@ class CFG:
         self._facts[key] = res
         return res
 
+    def guards_at(self, nid, ignore_exc=True):
+        """Outcomes of atomic tests whose branch node dominates nid (no kill on
+        stores: 'the test had that outcome when it was evaluated')."""
+        dom = self.dominators(ignore_exc).get(nid, ())
+        out = {}
+        for d in dom:
+            n = self.nodes[d]
+            if n.kind == "branch" and n.tag not in ("iter", "exhausted"):
+                out[src(n.ast)] = n.value
+        return out
+
     def facts_at(self, nid, ignore_exc=True):
         return self.facts(ignore_exc).get(nid, frozenset())
 
